@@ -12,6 +12,13 @@ declare -A REL=(
  [B09-any-battery-level]="C13 C14 C03 C04"
  [B10-compact-json]="C13 C14 C15 C16"
  [B11-stream-unsupported-first]="C03 C04 C05 C10 C19"
+ [B12-one-wildcard-subscription]="C18"
+ [B13-mqtt-decode-error-class]="C18"
+ [B14-save-every-10-minutes]="C16"
+ [B15-sleeping-before-parse]="C03 C04 C07 C19"
+ [B16-battery-half-up]="C04 C13"
+ [B17-unsorted-indent4]="C13 C14 C15"
+ [B18-stream-write-in-two-pieces]="C17"
 )
 for b in "${!REL[@]}"; do
   [ -n "$1" ] && [[ "$b" != $1* ]] && continue
